@@ -119,11 +119,11 @@ PROPS["C12"] = dict(
 PROPS["C04"] = dict(
     claim=dict(
         text="Machine-checked proof (Coq 8.16) over a small-step stack machine for Context.Next with the int8 cursor written out: for every chain of at most 63 handlers calling Next at most once, effects happen in onion order and every handler starts exactly once (C04_onion, generic in the effect type, so it also orders writer operations); for arbitrary handler programs (aborts, panics, any ops) with at most one Next each, no handler ever starts twice and the cursor never crashes (C04_each_at_most_once, C04_no_cursor_crash, by a reachable-state invariant); the chain is global ++ route middleware ++ main resp. global ++ fallback handlers (C04_chain_*), and route middleware is the lexically scoped list (C04_route_middleware). K2 (Next twice in 43 middleware wraps the cursor) is kept as a refuted witness and a known finding. Tie to the code: generated registration programs x handler behaviours (no/one/two Next) x requests incl. 404/405 probes; traces, response logs compared with the extracted model; the judge recomputes the onion trace from the denoted chain.",
-        note="Trusted: Coq kernel, extraction, driver, harness. Handlers calling Next twice are covered by the correspondence and the judge (later Next calls are no-ops) but not by a theorem beyond the at-most-once case; the cursor bound is K2. PanicsHandler middleware is outside the model (DESIGN O1).",
+        note="Trusted: Coq kernel, extraction, driver, harness. Handlers calling Next any number of times: every handler still starts at most once in any chain of at most 63 handlers (C04_next_many_each_once), and without Abort ops the cursor cannot crash while chain length + number of Next ops <= 127 (C04_next_many_no_crash); beyond that bound it does (K2). PanicsHandler middleware is outside the model (DESIGN O1).",
         technique="Coq proof: onion-order theorem and reachable-state invariant of a stack machine with int8 cursor; extracted model vs implementation differential check"),
     n=dict(quick=1500, thorough=40000),
     consts=["abort-index"],
-    theorems=["C04_chain_route", "C04_chain_not_found", "C04_chain_not_allowed", "C04_route_middleware", "C04_onion", "C04_each_at_most_once", "C04_no_cursor_crash"],
+    theorems=["C04_chain_route", "C04_chain_not_found", "C04_chain_not_allowed", "C04_route_middleware", "C04_onion", "C04_each_at_most_once", "C04_no_cursor_crash", "C04_next_many_each_once", "C04_next_many_no_crash"],
     rule="case = registration program (nested groups, Use at top level / in groups / after routes, variadic and later route middleware, custom or default "
          "NotFound/NotAllowed) x per-handler behaviour (no Next / once / twice, extra events) x one request per route + 404 + 405/OPTIONS probes. Observed: "
          "ordered enter/leave trace, underlying writer log, escaped panic. Non-trivial = distinct program with a group and two routes.",
@@ -134,11 +134,11 @@ PROPS["C04"] = dict(
 PROPS["C05"] = dict(
     claim=dict(
         text="Machine-checked proof (Coq 8.16): for every chain of at most 63 handlers calling Next at most once and every position and flavour of the aborting handler, from the moment an Abort / AbortThen / AbortWithStatus op executes in a state reachable from the start of the request no further handler ever starts, even if Next is called afterwards, and the cursor never crashes (C05_no_later_start, C05_no_later_start_status; by the reachable-state invariant index+debt<=127 whose worst case 63+1+63 is exactly the int8 maximum); suspended handlers resume and apply exactly their remaining effects (C05_suspended_resume); IsAborted is true from then on (C05_is_aborted_after, C05_aborted_stable); AbortWithStatus records its status like SetStatus (C05_status, with C08); registration enforces the limit (C05_limit). K1 (IsAborted true without abort when the cursor reaches 63 by nesting, chains >= 32) is a refuted witness and a known finding. Tie to the code: chains of every length 1..63 x abort position x before/after/without Next x other handlers with/without Next, with IsAborted samples; trace, IsAborted values and status compared with the extracted model; judge checks the clauses on the implementation's trace.",
-        note="Trusted: Coq kernel, extraction, driver, harness. 'IsAborted is false before the first abort' is covered by the correspondence and judge only (no theorem yet); it is false of the code for chains whose nesting reaches the sentinel (K1). Chains longer than 63 (only reachable through global middleware) are outside the property's quantifier (DESIGN O2).",
+        note="Trusted: Coq kernel, extraction, driver, harness. 'IsAborted is false before the first abort' is proved for chains of at most 31 handlers (C05_is_aborted_before: the cursor stays below 63); it is false of the code for longer chains whose nesting reaches the sentinel (K1). Chains longer than 63 (only reachable through global middleware) are outside the property's quantifier (DESIGN O2).",
         technique="Coq proof: step-preserved potential invariant of the chain machine (abort containment) + termination/resume theorem; extracted model vs implementation differential check"),
     n=dict(quick=1500, thorough=20000),
     consts=["abort-index"],
-    theorems=["C05_no_later_start", "C05_no_later_start_status", "C05_suspended_resume", "C05_is_aborted_after", "C05_aborted_stable", "C05_status", "C05_limit"],
+    theorems=["C05_no_later_start", "C05_no_later_start_status", "C05_suspended_resume", "C05_is_aborted_after", "C05_is_aborted_before", "C05_aborted_stable", "C05_status", "C05_limit"],
     rule="case = one route behind n-1 middleware split over global / group / route (chain length 1..63), aborting handler at a random position, flavour "
          "Abort/AbortThen/AbortWithStatus(+later SetStatus), before / after / without Next, other handlers calling Next with probability 3/4, IsAborted samples, "
          "occasional body writes. Observed: trace with marker before the abort, IsAborted values, writer log. Non-trivial = distinct case with chain length >= 2.",
@@ -214,12 +214,12 @@ PROPS["C02"] = dict(
 )
 PROPS["C06"] = dict(
     claim=dict(
-        text="Machine-checked proof (Coq 8.16): for every grammar-level table, every combination of StrictLastSlash / HandleMethodNotAllowed / HandleFallbackRoute, every '/'-free method and every path, QuickMatch equals the documented decision list: direct match; else for HEAD the GET match; else the '/*' route registered for the method when fallback handling is on; else not-allowed with the allowed set equal to exactly the other methods that match, when 405 handling is on and that set is non-empty; else not found (C06_order, on top of C01_selection); caching does not change the resolution (C06_cached); with InterceptAll every request path resolves alike (C06_intercept) and the intercept path is normalised like a request path (F14 refuted witness for the old code); the default handlers are 405 + sorted Allow (200 for OPTIONS) and 404 (C06_default_*). Tie to the code: tables x random option combinations (incl. caching, InterceptAll in several spellings, '/*' routes per method) x custom/default fallback handlers x probes with HEAD, OPTIONS, unknown methods through Router.Match and ServeHTTP; resolution, status, Allow header and who ran are compared with the extracted model and judged by the ladder computed from the grammar-level table.",
+        text="Machine-checked proof (Coq 8.16): for every grammar-level table, every combination of StrictLastSlash / HandleMethodNotAllowed / HandleFallbackRoute, every '/'-free method and every path, QuickMatch equals the documented decision list: direct match; else for HEAD the GET match; else the '/*' route registered for the method when fallback handling is on; else not-allowed with the allowed set equal to exactly the other methods that match, when 405 handling is on and that set is non-empty; else not found (C06_order, on top of C01_selection); caching does not change the resolution (C06_cached); with InterceptAll(q) every request resolves exactly as a request for q on the same router without the option (C06_intercept, C06_intercept_as_request); the intercept path is normalised like a request path (F14 refuted witness for the old code); the default handlers are 405 + sorted Allow (200 for OPTIONS) and 404 (C06_default_*). Tie to the code: tables x random option combinations (incl. caching, InterceptAll in several spellings, '/*' routes per method) x custom/default fallback handlers x probes with HEAD, OPTIONS, unknown methods through Router.Match and ServeHTTP; resolution, status, Allow header and who ran are compared with the extracted model and judged by the ladder computed from the grammar-level table.",
         note="Trusted: Coq kernel, extraction, driver, harness; as C01 for the string-level front end. C06_order is stated for routers without caching and InterceptAll; caching is covered by C06_cached/C07, InterceptAll by C06_intercept plus the correspondence.",
         technique="Coq proof: QuickMatch = decision list over spec_select; extracted model vs implementation differential check"),
     n=dict(quick=1500, thorough=40000),
     consts=["any-methods"],
-    theorems=["C06_order", "C06_cached", "C06_intercept", "C06_default_405", "C06_default_404"],
+    theorems=["C06_order", "C06_cached", "C06_intercept", "C06_intercept_as_request", "C06_default_405", "C06_default_404"],
     rule="case = table as for C01 (+ '/*' routes for all / one / two methods) x random combination of StrictLastSlash, HandleMethodNotAllowed, HandleFallbackRoute, "
          "caching, InterceptAll(p in several spellings) x custom or default NotFound/NotAllowed x 14 probes (table methods, HEAD, OPTIONS, unknown/lower-case "
          "methods) through Router.Match and ServeHTTP. Observed: resolution (route / allowed set / not found), status, Allow header, who ran. "
@@ -256,12 +256,12 @@ PROPS["C13"] = dict(
 
 PROPS["C20"] = dict(
     claim=dict(
-        text="Machine-checked proof (Coq 8.16): HTTPBasicAuth's decision, with base64 decoding an arbitrary function, lets a request through iff it carries well-formed Basic credentials (prefix compared case-insensitively, cut at the first colon) and either no account list is configured or the user's password matches; it answers 401 exactly when the credentials are missing or malformed and 403 in every remaining case (C20_auth_allow, C20_auth_401, C20_auth_403); the middleware is a handler program that aborts on deny, so by C05 nothing downstream starts. HTTPMethodOverrideHandler rewrites only POST and only to PUT/PATCH/DELETE, form value before header, case-insensitively, recording POST (C20_override, C20_override_whitelist). The loop of WrapHTTPHandlers builds w1(w2(...(wn router))) for every non-empty wrapper list (C20_wrap, by induction). Tie to the code: the real middleware/handlers are driven with generated account maps and headers (malformed base64, missing colon, empty passwords, wrong scheme case), 9 methods x override values x carriers (query, body, header), wrapper lists of length 1..6 and chains containing a wrapped plain http.Handler; downstream-ran / status / challenge / method seen / original method / enter-leave order are compared with the extracted model (the auth middleware is run through the dispatcher model) and with the specification.",
+        text="Machine-checked proof (Coq 8.16): HTTPBasicAuth's decision, with base64 decoding an arbitrary function, lets a request through iff it carries well-formed Basic credentials (prefix compared case-insensitively, cut at the first colon) and either no account list is configured or the user's password matches; it answers 401 exactly when the credentials are missing or malformed and 403 in every remaining case (C20_auth_allow, C20_auth_401, C20_auth_403); the middleware is a handler program of the chain machine: on deny the request completes and nothing after it starts, for every rest of the chain within the limit (C20_auth_denied); on allow every handler runs (C20_auth_allowed). HTTPMethodOverrideHandler rewrites only POST and only to PUT/PATCH/DELETE, form value before header, case-insensitively, recording POST (C20_override, C20_override_whitelist). The loop of WrapHTTPHandlers builds w1(w2(...(wn router))) for every non-empty wrapper list (C20_wrap, by induction). Tie to the code: the real middleware/handlers are driven with generated account maps and headers (malformed base64, missing colon, empty passwords, wrong scheme case), 9 methods x override values x carriers (query, body, header), wrapper lists of length 1..6 and chains containing a wrapped plain http.Handler; downstream-ran / status / challenge / method seen / original method / enter-leave order are compared with the extracted model (the auth middleware is run through the dispatcher model) and with the specification.",
         note="Trusted: Coq kernel, extraction, driver, harness. base64 decoding, form parsing (Request.FormValue) and net/http's BasicAuth prefix test are modelled (base64 is an arbitrary function in the theorems and an oracle input in the tie). The statement 'nothing downstream runs' rests on C05's abort theorems for the chain machine.",
         technique="Coq proof: iff-characterisation of the gate decisions and induction over wrapper lists; extracted model vs implementation differential check"),
     n=dict(quick=3000, thorough=40000),
     consts=[],
-    theorems=["C20_auth_allow", "C20_auth_401", "C20_auth_403", "C20_override", "C20_override_whitelist", "C20_wrap"],
+    theorems=["C20_auth_allow", "C20_auth_401", "C20_auth_403", "C20_auth_denied", "C20_auth_allowed", "C20_override", "C20_override_whitelist", "C20_wrap"],
     rule="cases: (a) account map of 0..3 entries (empty users/passwords, colons, non-ASCII) x Authorization header (valid, absent, wrong case, truncated base64, "
          "no colon, other scheme, missing space); (b) 9 methods x override value (PUT/put/Patch/delete/POST/GET/empty/unknown/near-miss) in form field and/or header x "
          "carrier query/body/none; (c) 1..6 wrappers; (d) chain with a wrapped plain http.Handler at a random position. Non-trivial = auth case with accounts "
@@ -319,4 +319,16 @@ PROPS["C17"] = dict(
          "percent-encoded elements.",
     trusted_base=["modelled, not verified: path.Clean, http.Dir, http.StripPrefix, http.FileServer, http.ServeFile, the OS file system (sandbox tree created by the harness under the check's work directory)"],
     assumptions=["no symlinks in the served tree"],
+)
+
+PROPS["C18"] = dict(
+    n=dict(quick=3000, thorough=60000),
+    consts=[],
+    rule="cases: (a) method x Content-Type from a table of 20 (documented types with and without parameters, empty, unknown, near-miss types), every source carrying a "
+         "different value so that the source used is observable; (b) round trip of generated struct values (ints, int64, strings with unicode / separators / markup / "
+         "control characters, bools, string slices) through JSON, XML, url-encoded form, multipart form and query string; (c) malformed bodies (truncated, wrong "
+         "types, invalid escapes, invalid UTF-8) per format: an error, never a panic; (d) struct with validation rules, valid/invalid x validator enabled/disabled. "
+         "Non-trivial = body-method source case or a round trip.",
+    trusted_base=["ASSUMED (section variables, sampled by the tie): encoding/json, encoding/xml, monoculum/formam, gookit/validate, net/http form parsing"],
+    assumptions=["codec round-trip laws decode(encode v) = v are hypotheses of the round-trip theorem; the harness samples them"],
 )
